@@ -4,10 +4,8 @@ CONSTANT NP = 3
 CONSTANT MaxOps = 2
 CONSTANT Styles = {"only_r", "only_m"}
 CONSTANT Guarded = TRUE
-INVARIANT InvAllRefsLegal
+INVARIANT InvConsistent
 INVARIANT InvNoDanglingRef
-INVARIANT InvUniqueUnits
-INVARIANT InvSeedsResolve
 INVARIANT InvNoOutputClash
 INVARIANT InvSeedInGraph
 CHECK_DEADLOCK FALSE
